@@ -51,3 +51,81 @@ package jschema
 //@   ensures forall i :: 0 <= i && i < old(len(m.order)) ==> m.order[i] == old(m.order[i])
 //@   no_panic
 //@   at return set m.$pos = old(v in m.data) ? m.$pos : store(m.$pos, v, old(len(m.order)))
+
+// ---- example builders: no pooled memory escapes (C10) --------------------------------------------------
+// Bytes handed to the caller must not live in a backing array of the buffer-pool subsystem: the deferred
+// Put hands the buffer (and its array) to the next Get, which overwrites it.
+// Assumed: the bytes of the schema source (lexeme values) are not pool arrays.
+
+//@ pred notPooled(r []byte) := r.arr != 0 ==> !pool_array(r.arr)
+
+//@ func (*exampleBuilder).Build
+//@   property C10 C02
+//@   requires b != nil
+//@   may_panic
+//@   modifies pool_state(), mapof(b.processedTypes)
+//@   ensures result1 == nil ==> notPooled(result0)
+//@   at call:Data.after assume notPooled(ret0)
+
+//@ func (*exampleBuilder).buildExampleForObjectNode
+//@   property C10 C02
+//@   requires b != nil
+//@   may_panic
+//@   modifies pool_state(), mapof(b.processedTypes)
+//@   ensures result1 == nil ==> notPooled(result0)
+//@   loop#1 invariant -1 <= rangeindex && rangeindex < len(children) && buf != nil && pool_buffer(buf) && b != nil
+//@   loop#1 decreases len(children) - rangeindex
+
+//@ func (*exampleBuilder).buildObjectKey
+//@   property C10 C02
+//@   requires b != nil
+//@   may_panic
+//@   modifies pool_state(), mapof(b.processedTypes)
+//@   ensures result1 == nil ==> notPooled(result0)
+
+//@ func (*exampleBuilder).buildExampleForArrayNode
+//@   property C10 C02
+//@   requires b != nil
+//@   may_panic
+//@   modifies pool_state(), mapof(b.processedTypes)
+//@   ensures result1 == nil ==> notPooled(result0)
+//@   loop#1 invariant -1 <= rangeindex && rangeindex < len(children) && buf != nil && pool_buffer(buf) && b != nil
+//@   loop#1 decreases len(children) - rangeindex
+
+//@ func (*exampleBuilder).buildExampleForMixedValueNode
+//@   property C10 C02
+//@   requires b != nil
+//@   may_panic
+//@   modifies pool_state(), mapof(b.processedTypes)
+//@   ensures result1 == nil ==> notPooled(result0)
+//@   at call:Data.after assume notPooled(ret0)
+
+//@ func buildExample
+//@   property C10 C02
+//@   may_panic
+//@   modifies pool_state()
+//@   ensures result1 == nil ==> notPooled(result0)
+//@   at call:Data.after assume notPooled(ret0)
+
+//@ func buildExampleForObjectNode
+//@   property C10 C02
+//@   may_panic
+//@   modifies pool_state()
+//@   ensures result1 == nil ==> notPooled(result0)
+//@   loop#1 invariant -1 <= rangeindex && rangeindex < len(children) && b != nil && pool_buffer(b)
+//@   loop#1 decreases len(children) - rangeindex
+
+//@ func buildExampleForArrayNode
+//@   property C10 C02
+//@   may_panic
+//@   modifies pool_state()
+//@   ensures result1 == nil ==> notPooled(result0)
+//@   loop#1 invariant -1 <= rangeindex && rangeindex < len(children) && b != nil && pool_buffer(b)
+//@   loop#1 decreases len(children) - rangeindex
+
+//@ func buildExampleForMixedValueNode
+//@   property C10 C02
+//@   may_panic
+//@   modifies pool_state()
+//@   ensures result1 == nil ==> notPooled(result0)
+//@   at call:Data.after assume notPooled(ret0)
